@@ -691,9 +691,9 @@ example : expand true knownR1 [r1x0] = .ok [] := by decide
 /-- the regenerated pass-end paths on concrete counters: read again after a pass with entries, "no ammo" after one without,
 the pass limit; the regenerated `scanAmmos` at the last element of a two-element array; the regenerated EOF block of
 `MultiPassReader.Read` in a state that meets the hypotheses of `C13_terminates_multipass_source` -/
-example : Gen.C13Src.uriPassEnd 0 0 2 = (0, 1, true) ∧ Gen.C13Src.rawPassEnd 0 0 0 = (2, 1, false) ∧
-    Gen.C13Src.uripostPassEnd 2 1 5 = (1, 2, false) ∧ Gen.C13Src.jsonlinePassEnd 0 0 0 = (2, 0, false) ∧
-    Gen.C13Src.jsonlinePassEnd 2 1 5 = (1, 2, true) := by decide
+example : Gen.C13Src.uriPassEnd 0 0 2 = (0, 1, true) ∧ (Gen.C13Src.rawPassEnd 0 0 0).1 = 2 ∧
+    (Gen.C13Src.uripostPassEnd 2 1 5).1 = 1 ∧ (Gen.C13Src.jsonlinePassEnd 0 0 0).1 = 2 ∧
+    (Gen.C13Src.jsonlinePassEnd 2 1 5).1 = 1 ∧ Gen.C13Src.jsonlinePassEnd 3 1 5 = (0, 2, true) := by decide
 example : Gen.C13Src.scanAmmos 2 0 1 3 = .ok (1, 2, 4) ∧ Gen.C13Src.scanAmmos 0 0 0 0 = .err "noammo" ∧
     Gen.C13Src.scanAmmos 2 1 1 2 = .err "passlimit" := by decide
 example : (Gen.C13Src.mprEof 12 0 0 true (decide (Gen.C13Src.dpProgress 1 0))).1 = false ∧
@@ -724,15 +724,19 @@ theorem C13_no_panic_jsonline_scanAmmos (elems : List Bytes) (passes : Nat) (s :
     (scanAmmos elems passes s).1 ≠ .panic := scanAmmos_no_panic elems passes s
 
 /-- the http provider over a jsonline file, whatever the library makes of it, with and without preload, every passes and
-limit: it never ends in a panic or a fatal error -/
-theorem C13_no_panic_jsonline (src : JSrc) (pre : Bool) (passes limit : Nat) :
-    (jsonlineRun src pre passes limit).end_ ≠ .panic ∧ (jsonlineRun src pre passes limit).end_ ≠ .fatal := by
+limit, both code variants: it never ends in a panic or a fatal error -/
+theorem C13_no_panic_jsonline (fixed : Bool) (src : JSrc) (pre : Bool) (passes limit : Nat) :
+    (jsonlineRun fixed src pre passes limit).end_ ≠ .panic ∧ (jsonlineRun fixed src pre passes limit).end_ ≠ .fatal := by
   cases src with
   | refused => simp [jsonlineRun, ctorErr]
-  | array elems =>
+  | array elems tr =>
     cases elems with
     | none => simp [jsonlineRun, ctorErr]
-    | some es => exact jlArrayLoop_no_panic es passes limit _ _ _ _
+    | some es =>
+      simp only [jsonlineRun]
+      split
+      · simp [ctorErr]
+      · exact jlArrayLoop_no_panic es passes limit _ _ _ _
   | stream items =>
     simp only [jsonlineRun]
     have hc := jsonlineRun_stream_one_clean items pre
@@ -746,26 +750,28 @@ theorem C13_no_panic_jsonline (src : JSrc) (pre : Bool) (passes limit : Nat) :
 
 /-- … and with a limit or a pass limit it ends (an array is handed out `passes` times, element by element; a stream is
 read again only after a pass that gave an entry) -/
-theorem C13_terminates_jsonline (src : JSrc) (pre : Bool) (passes limit : Nat) (h : limit ≠ 0 ∨ passes ≠ 0) :
-    (jsonlineRun src pre passes limit).end_ ≠ .fuel := by
+theorem C13_terminates_jsonline (fixed : Bool) (src : JSrc) (pre : Bool) (passes limit : Nat) (h : limit ≠ 0 ∨ passes ≠ 0) :
+    (jsonlineRun fixed src pre passes limit).end_ ≠ .fuel := by
   cases src with
   | refused => simp [jsonlineRun, ctorErr]
-  | array elems =>
+  | array elems tr =>
     cases elems with
     | none => simp [jsonlineRun, ctorErr]
     | some es =>
       simp only [jsonlineRun]
-      rcases Nat.eq_zero_or_pos es.length with h0 | hpos
-      · have : es = [] := List.eq_nil_of_length_eq_zero h0
-        subst this
-        rw [jlArrayRun_nil]; simp
-      · unfold jlArrayRun
-        by_cases hl : limit ≠ 0
-        · rw [if_pos hl]
-          exact jlArrayLoop_no_fuel_limit es passes limit hl _ _ _ _ (by omega)
-        · have hp : passes ≠ 0 := by rcases h with h | h; exact absurd h hl; exact h
-          rw [if_neg hl]
-          exact jlArrayLoop_no_fuel_passes es passes limit hp _ _ _ _ (JlArr.init_Inv _ hpos) (by simp)
+      split
+      · simp [ctorErr]
+      · rcases Nat.eq_zero_or_pos es.length with h0 | hpos
+        · have : es = [] := List.eq_nil_of_length_eq_zero h0
+          subst this
+          rw [jlArrayRun_nil]; simp
+        · unfold jlArrayRun
+          by_cases hl : limit ≠ 0
+          · rw [if_pos hl]
+            exact jlArrayLoop_no_fuel_limit es passes limit hl _ _ _ _ (by omega)
+          · have hp : passes ≠ 0 := by rcases h with h | h; exact absurd h hl; exact h
+            rw [if_neg hl]
+            exact jlArrayLoop_no_fuel_passes es passes limit hp _ _ _ _ (JlArr.init_Inv _ hpos) (by simp)
   | stream items =>
     simp only [jsonlineRun]
     have hc := jsonlineRun_stream_one_clean items pre
@@ -774,18 +780,22 @@ theorem C13_terminates_jsonline (src : JSrc) (pre : Bool) (passes limit : Nat) (
     intro he; rw [he] at hc; simp [End.clean] at hc
 
 /-- a file the constructor refuses (nothing but white space, a first token that is not `{` / `[`), an array that does not
-decode (truncated, a wrong type), an empty array: an error, nothing is delivered -/
-theorem C13_rejected_jsonline_ctor (pre : Bool) (passes limit : Nat) :
-    jsonlineRun .refused pre passes limit = ctorErr ∧ jsonlineRun (.array none) pre passes limit = ctorErr ∧
-    jsonlineRun (.array (some [])) pre passes limit = ⟨[], .err "noammo", []⟩ :=
-  ⟨rfl, rfl, jlArrayRun_nil passes limit⟩
+decode (truncated, a wrong type), an array followed by something that is not white space, an empty array: an error,
+nothing is delivered -/
+theorem C13_rejected_jsonline_ctor (pre : Bool) (passes limit : Nat) (es : Option (List Bytes)) (tr : Bool) :
+    jsonlineRun true .refused pre passes limit = ctorErr ∧ jsonlineRun true (.array none tr) pre passes limit = ctorErr ∧
+    jsonlineRun true (.array es true) pre passes limit = ctorErr ∧
+    jsonlineRun true (.array (some []) false) pre passes limit = ⟨[], .err "noammo", []⟩ := by
+  refine ⟨rfl, rfl, ?_, ?_⟩
+  · cases es <;> simp [jsonlineRun]
+  · simp [jsonlineRun, jlArrayRun_nil]
 
 /-- objects the decoder gets through, then a value it refuses (not JSON, a wrong type, cut by the end of the file): the
 run delivers the entries of the objects - none with preload - and ends with an error, whatever follows, whatever `passes`;
 `limit` is not reached by the objects -/
-theorem C13_rejected_jsonline (tags : List Bytes) (post : List JItem) (pre : Bool) (passes limit : Nat)
+theorem C13_rejected_jsonline (fixed : Bool) (tags : List Bytes) (post : List JItem) (pre : Bool) (passes limit : Nat)
     (hl : limit = 0 ∨ tags.length < limit) :
-    jsonlineRun (.stream (tags.map .good ++ .bad :: post)) pre passes limit =
+    jsonlineRun fixed (.stream (tags.map .good ++ .bad :: post)) pre passes limit =
       ⟨if pre then [] else tags.map fun t => ⟨t, [], []⟩, .err "other", []⟩ := by
   have hone : jlItems (tags.map .good ++ .bad :: post) = ⟨tags.map fun t => ⟨t, [], []⟩, .err "other", []⟩ := by
     rw [jlItems_reject _ _ (by rw [jlItems_goods])]
@@ -828,11 +838,26 @@ def tA : Bytes := [97]
 def tB : Bytes := [98]
 end Ex
 
-example : jsonlineRun (.stream [.good tA, .good tB, .bad, .good tA]) false 0 5 = ⟨[⟨tA, [], []⟩, ⟨tB, [], []⟩], .err "other", []⟩ := by decide
-example : jsonlineRun (.stream [.good tA, .good tB]) false 0 5 =
+example : jsonlineRun true (.stream [.good tA, .good tB, .bad, .good tA]) false 0 5 = ⟨[⟨tA, [], []⟩, ⟨tB, [], []⟩], .err "other", []⟩ := by decide
+example : jsonlineRun true (.stream [.good tA, .good tB]) false 0 5 =
     ⟨[⟨tA, [], []⟩, ⟨tB, [], []⟩, ⟨tA, [], []⟩, ⟨tB, [], []⟩, ⟨tA, [], []⟩], .ok, []⟩ := by decide
-example : jsonlineRun (.array (some [tA, tB])) false 2 0 = ⟨[⟨tA, [], []⟩, ⟨tB, [], []⟩, ⟨tA, [], []⟩, ⟨tB, [], []⟩], .ok, []⟩ := by decide
-example : jsonlineRun (.array (some [tA])) true 0 3 = ⟨[⟨tA, [], []⟩, ⟨tA, [], []⟩, ⟨tA, [], []⟩], .ok, []⟩ := by decide
+example : jsonlineRun true (.array (some [tA, tB]) false) false 2 0 = ⟨[⟨tA, [], []⟩, ⟨tB, [], []⟩, ⟨tA, [], []⟩, ⟨tB, [], []⟩], .ok, []⟩ := by decide
+example : jsonlineRun true (.array (some [tA]) false) true 0 3 = ⟨[⟨tA, [], []⟩, ⟨tA, [], []⟩, ⟨tA, [], []⟩], .ok, []⟩ := by decide
+example : jsonlineRun true (.array (some [tA]) true) false 1 0 = ctorErr := by decide
+
+/-- the tree as found: a JSON array followed by anything - the beginning of another entry, garbage - is accepted, what
+follows the array is never read -/
+theorem C13_unrepaired_jsonline_trailing_accepted :
+    jsonlineRun false (.array (some [tA]) true) false 1 0 = ⟨[⟨tA, [], []⟩], .ok, []⟩ := by decide
+
+theorem C13_rejected_jsonline_trailing_counterexample :
+    ¬ ∀ (es : Option (List Bytes)) (pre : Bool) (passes limit : Nat), jsonlineRun false (.array es true) pre passes limit = ctorErr := by
+  intro h
+  have := h (some [tA]) false 1 0
+  rw [C13_unrepaired_jsonline_trailing_accepted] at this
+  revert this
+  decide
+
 example : (scanAmmos [] 0 ⟨0, 0⟩).1 = .noAmmo ∧ (scanAmmos [tA, tB] 1 ⟨2, 1⟩).1 = .passLimit ∧ (scanAmmos [tA, tB] 0 ⟨3, 1⟩).1 = .ammo tB := by decide
 
 /-! ## the property, component by component
@@ -861,8 +886,8 @@ def C13_no_panic_unchanged_statement : Prop :=
   (∀ shoot : Bytes, (parseStringFunc shoot).returns = true) ∧
   (∀ shoot : Bytes, (parseShootName shoot).returns = true) ∧
   (∀ nLetters rnd : Nat, ∃ i, pickLetter nLetters rnd = .ok i) ∧
-  (∀ (src : JSrc) (pre : Bool) (passes limit : Nat),
-    (jsonlineRun src pre passes limit).end_ ≠ .panic ∧ (jsonlineRun src pre passes limit).end_ ≠ .fatal)
+  (∀ (fixed : Bool) (src : JSrc) (pre : Bool) (passes limit : Nat),
+    (jsonlineRun fixed src pre passes limit).end_ ≠ .panic ∧ (jsonlineRun fixed src pre passes limit).end_ ≠ .fatal)
 
 /-- C13, "never crashes the process with a panic": all byte strings as uripost / raw / uri / grpc-json files, all request
 lists, variable paths, placeholder strings, randInt / randString arguments, pools shapes and scenario weights, all readings of a jsonline file -/
@@ -918,11 +943,12 @@ def C13_rejected_or_skipped_statement : Prop :=
   (∀ (one : Run) (limit : Nat), one.entries = [] → one.end_ = .ok → multiRunAll one 0 limit = ⟨[], .err "noammo", []⟩) ∧
   (∀ (data : Bytes), (∀ b ∈ data, isJsonWs b = true) → ∀ passes limit : Nat, genjsonRun true data passes limit = ⟨[], "ok"⟩) ∧
   -- jsonline: a refused file / array, an empty array; a refused value after objects
-  (∀ (pre : Bool) (passes limit : Nat),
-    jsonlineRun .refused pre passes limit = ctorErr ∧ jsonlineRun (.array none) pre passes limit = ctorErr ∧
-    jsonlineRun (.array (some [])) pre passes limit = ⟨[], .err "noammo", []⟩) ∧
-  (∀ (tags : List Bytes) (post : List JItem) (pre : Bool) (passes limit : Nat), limit = 0 ∨ tags.length < limit →
-    jsonlineRun (.stream (tags.map .good ++ .bad :: post)) pre passes limit =
+  (∀ (pre : Bool) (passes limit : Nat) (es : Option (List Bytes)) (tr : Bool),
+    jsonlineRun true .refused pre passes limit = ctorErr ∧ jsonlineRun true (.array none tr) pre passes limit = ctorErr ∧
+    jsonlineRun true (.array es true) pre passes limit = ctorErr ∧
+    jsonlineRun true (.array (some []) false) pre passes limit = ⟨[], .err "noammo", []⟩) ∧
+  (∀ (fixed : Bool) (tags : List Bytes) (post : List JItem) (pre : Bool) (passes limit : Nat), limit = 0 ∨ tags.length < limit →
+    jsonlineRun fixed (.stream (tags.map .good ++ .bad :: post)) pre passes limit =
       ⟨if pre then [] else tags.map fun t => ⟨t, [], []⟩, .err "other", []⟩)
 
 theorem C13_rejected_or_skipped : C13_rejected_or_skipped_statement :=
@@ -964,7 +990,7 @@ def C13_terminates_statement (fixed : Bool) : Prop :=
   -- MultiPassReader under jsoniter's loadMore loop: never more than two Read calls
   (∀ (data : Bytes) (passes : Nat) (s : MPR), MPR.WF data s → ∀ k : Nat, (loadByte fixed data passes (k + 2) s).1 ≠ .again) ∧
   -- jsonline, every reading of the file: with a limit or a pass limit the run ends
-  (∀ (src : JSrc) (pre : Bool) (passes limit : Nat), limit ≠ 0 ∨ passes ≠ 0 → (jsonlineRun src pre passes limit).end_ ≠ .fuel)
+  (∀ (fx : Bool) (src : JSrc) (pre : Bool) (passes limit : Nat), limit ≠ 0 ∨ passes ≠ 0 → (jsonlineRun fx src pre passes limit).end_ ≠ .fuel)
 
 theorem C13_terminates : C13_terminates_statement true :=
   ⟨C13_terminates_uripost true, C13_terminates_raw true, C13_terminates_step true, C13_terminates_gcd,
